@@ -109,11 +109,11 @@ def build(u):
         with u.mod("telemetry_wrapper"):
             u.placeholder_ext(tlw, ["TelemetrySharedState"], "vx_ph_tlw")
     with u.mod("proxy", uses="use std::{ffi::OsString, path::PathBuf};\nuse serde_derive::{Deserialize, Serialize};"):
-        u.take_ext(px, ["Claims"], "vx_ext_claims", uses="use std::{ffi::OsString, path::PathBuf};\nuse serde_derive::{Deserialize, Serialize};", opaque=False)
+        u.take_ext(px, ["Claims"], "vx_ext_claims", uses="use std::{ffi::OsString, path::PathBuf};\nuse serde_derive::{Deserialize, Serialize};", transparent=True)
         with u.impl_(px, "Claims"):
             u.take_fn(px, "Claims::empty", external_body=True)
         with u.mod("proxy_summary", uses="use std::path::PathBuf;\nuse serde_derive::{Deserialize, Serialize};"):
-            u.take_ext(psum, ["ProxySummary"], "vx_ext_psum", uses="use std::path::PathBuf;\nuse serde_derive::{Deserialize, Serialize};", opaque=False)
+            u.take_ext(psum, ["ProxySummary"], "vx_ext_psum", uses="use std::path::PathBuf;\nuse serde_derive::{Deserialize, Serialize};", transparent=True)
         with u.mod("authorization_rules", uses="use super::Claims;\nuse crate::key_keeper::key::{Identity, Privilege};\nuse std::collections::{HashMap, HashSet};"):
             u.take(ar, "AuthorizationMode", "enum", structural=True)
             u.take(ar, "ComputedAuthorizationItem", "struct")
@@ -171,4 +171,25 @@ def build(u):
                           ghost_calls=[("send_request", None, "Ghost(self.url), Ghost(kk)")],
                           contract="""
         requires may_relay(self.tcp_connection_context, self.url, kk),    // @C01.HttpConnectionContext_send_request.only_attributed_and_authorized
+""")
+
+        with u.mod("proxy_server", uses="use crate::common::{constants, error::{Error, HyperErrorType}, helpers, hyper_client, logger, result::Result};\nuse crate::proxy::proxy_connection::{ConnectionLogger, HttpConnectionContext, TcpConnectionContext};\nuse crate::proxy::{proxy_authorizer, proxy_authorizer::AuthorizeResult, proxy_summary::ProxySummary, Claims};\nuse crate::shared_state::agent_status_wrapper::AgentStatusSharedState;\nuse crate::shared_state::key_keeper_wrapper::KeyKeeperSharedState;\nuse crate::shared_state::provision_wrapper::ProvisionSharedState;\nuse crate::shared_state::proxy_server_wrapper::ProxyServerSharedState;\nuse crate::shared_state::redirector_wrapper::RedirectorSharedState;\nuse crate::shared_state::telemetry_wrapper::TelemetrySharedState;\nuse http_body_util::Full;\nuse http_body_util::{combinators::BoxBody, BodyExt};\nuse hyper::body::{Bytes, Frame, Incoming};\nuse hyper::header::{HeaderName, HeaderValue};\nuse hyper::StatusCode;\nuse hyper::{Request, Response};\nuse log::Level as LoggerLevel;\nuse crate::proxy_agent_shared::misc_helpers;\nuse crate::proxy_agent_shared::telemetry::event_logger;\nuse tokio_util::sync::CancellationToken;\nuse tower_http::body::Limited;"):
+            u.take(ps, "ProxyServer", "struct", keep_derive=("Clone",))
+            with u.impl_(ps, "ProxyServer"):
+                u.take_fn(ps, "ProxyServer::empty_response", e9=status_e9(), contract="""
+        ensures resp_status(r) == status_code, body_is_empty(resp_body(r)),  // @C01.empty_response.error_status_with_empty_body
+""")
+                u.take_fn(ps, "ProxyServer::log_connection_summary",
+                          ghost="Tracked(tr): Tracked<&mut HTrace>",
+                          ghost_calls=[("add_one_failed_connection_summary", None, "Tracked(tr)"), ("add_one_connection_summary", None, "Tracked(tr)")],
+                          pre_body="broadcast use group_http_fmt, axiom_fmt_error;",
+                          contract="""
+        ensures
+            final(http_connection_context).id == old(http_connection_context).id, final(http_connection_context).url == old(http_connection_context).url,
+            final(http_connection_context).method == old(http_connection_context).method, final(http_connection_context).now == old(http_connection_context).now,
+            final(http_connection_context).tcp_connection_context == old(http_connection_context).tcp_connection_context,
+            !log_authorize_failed ==> final(tr).failed == old(tr).failed,   // @C11.log_connection_summary.only_denials_recorded
+            log_authorize_failed ==> final(tr).failed.len() == old(tr).failed.len() + 1 && final(tr).failed.drop_last() == old(tr).failed,  // @C11.log_connection_summary.exactly_one_occurrence
+            log_authorize_failed && old(http_connection_context).tcp_connection_context.claims is Some && old(http_connection_context).tcp_connection_context.destination_ip is Some
+                ==> final(tr).failed.last() == denial_event(old(http_connection_context).tcp_connection_context, response_status),  // @C11.log_connection_summary.under_callers_user_process_cmdline_destination
 """)
